@@ -11,6 +11,7 @@ compared after the last step.
 import dataclasses
 import hashlib
 import json
+import os
 
 import numpy as np
 
@@ -19,7 +20,7 @@ from ..core import outcome
 
 RULE = ("one case = (program of table operations = TLC state of MC_C19, table type) replayed on a real bnpdataclass; non-trivial = the "
         "program combines two of {selection, concatenation, sort, replace, add-field} before its last step; distinct by (program, type)")
-ALL_OPS = ["index", "concat", "replace", "addfield", "addexisting", "sort", "rows", "dict", "pandas", "iter", "len", "construct"]
+ALL_OPS = ["index", "concat", "replace", "addfield", "addexisting", "sort", "rows", "dict", "pandas", "iter", "len", "row", "construct"]
 _TYPES = {}
 
 
@@ -73,6 +74,7 @@ def _types():
         "SequenceEntry": (dt.SequenceEntry, "name", "sequence", [("k2", "ACGT"), ("k3", "GG"), ("k1", "ACGTACGTA")], lambda k, j: "ACGT"[j % 4] * (k + j)),
         "SeqWithQuality": (dt.SequenceEntryWithQuality, "name", "quality", [("k2", "ACGT", [1, 2, 3, 4]), ("k3", "GG", [0, 40]), ("k1", "A", [7])],
                            lambda k, j: [k, j, k + j][:1 + j % 3]),
+        "Bed6File": (dt.Bed6, "start", "name", [("chr1", 2, 10, "n1", 5, "+"), ("chr22", 3, 1007, "name2", 10, "-"), ("c3", 1, 200, "x", 0, ".")], lambda k, j: "f%d_%d" % (k, j)),
         "ChromosomeSize": (dt.ChromosomeSize, "size", "name", [("chr1", 20), ("chr22", 30), ("c3", 10)], lambda k, j: "f%d_%d" % (k, j)),
         "LocationEntry": (dt.LocationEntry, "position", "chromosome", [("chr1", 2), ("chr22", 3), ("c3", 1)], lambda k, j: "f%d_%d" % (k, j)),
         "Nested": (Nested, "pos", "label", [(2, "l1", ((1, "a"), 5)), (3, "label2", ((2, "bb"), 6)), (1, "", ((3, "c"), 7))], lambda k, j: "f%d_%d" % (k, j)),
@@ -83,6 +85,21 @@ def _types():
     return _TYPES
 
 
+def _from_file(rows):
+    """the BED6 rows written to a file and read back: a lazily parsed table (columns are cut out of the text when asked for)"""
+    import bionumpy as bnp
+    import tempfile
+    d = os.path.join(core.VERIF, ".work")
+    os.makedirs(d, exist_ok=True)
+    with tempfile.NamedTemporaryFile("w", suffix=".bed", dir=d, delete=False) as f:
+        for r in rows:
+            f.write("\t".join(str(x) for x in r) + "\n")
+    try:
+        return bnp.open(f.name, buffer_type=bnp.io.delimited_buffers.Bed6Buffer).read()
+    finally:
+        os.remove(f.name)
+
+
 class _NotApplicable(BaseException):
     pass
 
@@ -91,6 +108,8 @@ def _plain(v):
     if isinstance(v, (list, tuple)):
         return [_plain(x) for x in v]
     if isinstance(v, np.ndarray):
+        if v.ndim == 0:
+            return _plain(v.item())          # a cell of a single entry
         return [_plain(x) for x in v.tolist()]
     if isinstance(v, (np.integer,)):
         return int(v)
@@ -102,6 +121,8 @@ def _plain(v):
         return v.to_string()
     if dataclasses.is_dataclass(v) and not isinstance(v, type):
         return [_plain(getattr(v, f.name)) for f in dataclasses.fields(v)]       # one entry of a nested-table column
+    if hasattr(v, "tolist"):
+        return _plain(v.tolist())           # a ragged cell of a single entry
     return v
 
 
@@ -171,7 +192,7 @@ def check_vector(v):
     structural = sum(1 for p in prog[1:] if p["op"] in ("index", "concat", "sort", "replace", "addfield", "addexisting"))
     for tname in dict.fromkeys(chosen):
         cls, sortc, repc, rows, fresh = types[tname]
-        pool = [cls.from_entry_tuples(rows)]
+        pool = [_from_file(rows) if tname == "Bed6File" else cls.from_entry_tuples(rows)]
         last = ("ok", None)
         failed = None
         for step, op in enumerate(prog[1:]):
@@ -205,12 +226,30 @@ def check_vector(v):
                 elif name == "dict":
                     return _project(type(t).from_dict(t.todict()))[0]
                 elif name == "pandas":
-                    return _project(type(t).from_data_frame(t.topandas()))[0]
+                    df = t.topandas()
+                    res = _project(type(t).from_data_frame(df))[0]
+                    # the frame is the caller's: writing into it (in place) leaves the table it came from unchanged (OperandsUnchanged)
+                    if len(df):
+                        for c in df.columns:
+                            if df[c].dtype.kind in "iuf":
+                                df.loc[df.index[0], c] = df[c].iloc[0] + 1
+                            elif df[c].dtype.kind == "b":
+                                df.loc[df.index[0], c] = not df[c].iloc[0]
+                    return res
                 elif name == "iter":
                     fields = [f.name for f in dataclasses.fields(t)]
                     return [tuple(_freeze(_plain(getattr(e, nm))) for nm in fields) for e in t.toiter()]
                 elif name == "len":
                     return len(t)
+                elif name == "row":
+                    fields = [f.name for f in dataclasses.fields(t)]
+                    try:
+                        ents = [t[j] for j in range(len(t))] + ([t[-1], t[np.int64(0)]] if len(t) else [])
+                    except TypeError as e:
+                        if "0-dimensional" in str(e):
+                            return "__not_applicable__"     # single rows of view-shaped ragged columns: numpy/npstructures pair of this sandbox
+                        raise
+                    return [tuple(_freeze(_plain(getattr(e, nm))) for nm in fields) for e in ents]
                 elif name == "construct":
                     return _construct(tname, t, op["form"])
                 return None
@@ -254,12 +293,14 @@ def check_vector(v):
                     bad.append({"what": "construction did not convert the columns to the declared types (different values)",
                                 "tags": dict(tags, kind="construct", form=prog[-1]["form"]), "vector": v, "case": case,
                                 "expected": str(want)[:300], "observed": str(got)[:300]})
-        if prog[-1]["op"] in ("rows", "dict", "pandas", "iter", "len"):
+        if prog[-1]["op"] in ("rows", "dict", "pandas", "iter", "len", "row"):
             tgt = pool_exp[prog[-1]["t"] - 1]
             names = [f.name for f in dataclasses.fields(pool[prog[-1]["t"] - 1])]
             want = _expected_rows(tname, tgt, names)
             if prog[-1]["op"] == "len":
                 want = len(want)
+            if prog[-1]["op"] == "row" and want:
+                want = want + [want[-1], want[0]]
             if last[1] != want:
                 bad.append({"what": "%s conversion is not the inverse / does not give the table's rows" % prog[-1]["op"], "tags": dict(tags, kind="conversion"),
                             "vector": v, "case": case, "expected": str(want)[:300], "observed": str(last[1])[:300]})
@@ -294,7 +335,9 @@ def _construct(tname, t, form):
         if form == "strings":
             return _project(type(t).from_entry_tuples([dataclasses.astuple(e) for e in t.tolist()]))[0]
         if form == "columns":
-            return _project(type(t)(*[getattr(t, nm) for nm in fields]))[0]
+            # the constructor of the plain table type (a lazily read table is an instance of a wrapper whose constructor is internal)
+            plain = type(t.get_data_object()) if hasattr(t, "get_data_object") else type(t)
+            return _project(plain(*[getattr(t, nm) for nm in fields]))[0]
         col = getattr(t, repc)
         if not (hasattr(col, "encoding") and hasattr(col, "lengths")) or tname != "Mixed":
             return "__not_applicable__"
@@ -348,7 +391,7 @@ def run(ctx):
     quick = ctx.tier == "quick"
     consts = {"NRows": 3, "Cols": ["key", "a", "b"], "SortCol": "key", "RepCol": "a", "MaxPool": 3, "MaxDepth": 4 if quick else 5, "Ops": ALL_OPS}
     res = ctx.tlc("MC_C19", spec="Spec", constants=consts, invariants=["AllColumnsEqualLen", "RowsIntact", "Emit"], properties=["OperandsUnchanged"], coverage=True)
-    ctx.require_actions(res, "MC_C19", ["Index_", "Concat_", "Replace_", "AddField_", "Sort_", "Rows_", "Dict_", "Pandas_", "Iter_", "Construct_"])
+    ctx.require_actions(res, "MC_C19", ["Index_", "Concat_", "Replace_", "AddField_", "Sort_", "Rows_", "Dict_", "Pandas_", "Iter_", "Row_", "Construct_"])
     vectors = res.vectors
     ctx.sample(vectors[60])
     ctx.absorb(core.pmap(check_vector, vectors, chunk=25))
